@@ -428,6 +428,8 @@ def r5b_giveup_goes_straight_to_close(ctx):
 
 
 def run(ctx):
+    from . import effects
+    effects.check_property(ctx, "C09")    # R09.E: no operation on shared protocol state outside the reviewed table
     from . import C08
     C08.r2_single_sender_owner(ctx)   # close() drops *the* inbound sender of every stream: a second owner (a cached clone) keeps a blocked reader from ever seeing end-of-stream
     r9_write_errors_funnel(ctx)
